@@ -186,6 +186,20 @@ class Exec:
             self.prev_p[key] = float(a.p_value)
             self.prev_proved[key] = bool(a.proved)
         self.prev_idx = idx
+        if rnd.get("what_if"):
+            # a what-if draw that is thrown away: how many cards would it be if every contest needed k more?
+            try:
+                for cid, con in live.items():
+                    con.sample_size = min(self.avail[cid], self.sizes[cid] + int(rnd["what_if"]))
+                CVR.consistent_sampling(self.cvrs, self.contests, sampled_cvr_indices=list(idx))
+            except Exception as e:  # noqa
+                out.lib_exception("what-if:consistent_sampling", e)
+                self.ok = False
+                return
+            finally:
+                for cid, con in self.contests.items():
+                    con.sample_size = self.sizes[cid]
+            out.cls("what-if-draw-between-rounds")
         if rnd.get("estimate") is not None:
             # between rounds the auditors ask how many more cards they may need, under error rates of their choosing:
             # planning must not touch the evidence (estimates themselves are C16's business; failures to estimate are ignored)
@@ -263,13 +277,13 @@ def machine(shard):
 
         @rule(variant=st.sampled_from(variants), incs=st.lists(st.integers(0, 4), min_size=3, max_size=3), big=st.booleans(),
               sort_first=st.sampled_from([False, False, False, False, True]),
-              estimate=st.sampled_from([None, None, None, 0.0, 0.01, 0.2]))
-        def audit_round(self, variant, incs, big, sort_first, estimate):
+              estimate=st.sampled_from([None, None, None, 0.0, 0.01, 0.2]), what_if=st.sampled_from([0, 0, 0, 1, 3]))
+        def audit_round(self, variant, incs, big, sort_first, estimate, what_if):
             if self.ex is None or not self.ex.ok:
                 return  # audit never started (non-positive margin ...) or already failed: nothing to escalate
             cids = sorted(self.ex.contests)
             inc = {cid: incs[i % 3] * (3 if big else 1) for i, cid in enumerate(cids)}
-            rnd = {"variant": variant, "inc": inc, "sort_first": sort_first, "estimate": estimate}
+            rnd = {"variant": variant, "inc": inc, "sort_first": sort_first, "estimate": estimate, "what_if": what_if}
             self.case["rounds"].append(rnd)
             self._guard(lambda: self.ex.step(rnd))
             self._flush()
